@@ -220,7 +220,7 @@ func (c *context) GetOption(name string) (interface{}, error) {
 func (c *context) SetOption(name string, v interface{}) error {
 	switch name {
 	case protocol.OptionSendDeadline:
-		if val, ok := v.(time.Duration); ok && val.Nanoseconds() > 0 {
+		if val, ok := v.(time.Duration); ok {
 			c.s.Lock()
 			c.sendExpire = val
 			c.s.Unlock()
@@ -229,7 +229,7 @@ func (c *context) SetOption(name string, v interface{}) error {
 		return protocol.ErrBadValue
 
 	case protocol.OptionRecvDeadline:
-		if val, ok := v.(time.Duration); ok && val.Nanoseconds() > 0 {
+		if val, ok := v.(time.Duration); ok {
 			c.s.Lock()
 			c.recvExpire = val
 			c.s.Unlock()
